@@ -23,7 +23,7 @@ Anc(a) == IF a = 0 \/ ~IsNode(a) THEN {0} ELSE {Parent(a)} \cup Anc(Parent(a))
 Held(addrs, a) == \E k \in Idx(addrs) : addrs[k][3] = a
 PathOk(addrs, a) == IsNode(a) /\ \A x \in Anc(a) : Held(addrs, x)
 
-MeshClause(e) ==
+MeshClause(e, later) ==      \* later: the master's table at the next quiescence (the release frame may still be under way at the return)
   IF e.exc # "none" THEN <<"C17.NoRaise", e.op \o " raised " \o e.exc>>
   ELSE IF ~Listen(e) THEN <<"C07.Listening", e.op \o "() returned without the radio listening">>
   ELSE IF e.op = "join" THEN
@@ -49,7 +49,7 @@ MeshClause(e) ==
   ELSE IF e.op = "release" THEN
        (IF e.wasconn /\ ~Lossy /\ e.res # 1 /\ PathOk(e.addrs_before, e.addr_before) THEN <<"C17.Release", "release_address() of a connected node returned False">>
         ELSE IF e.res = 1 /\ e.addr # Unassigned THEN <<"C17.Release", "node did not return to the unassigned address">>
-        ELSE IF e.res = 1 /\ Tab(e.table, e.id) # -2 THEN <<"C17.Release", "lease still in the master's table">>
+        ELSE IF e.res = 1 /\ ~Lossy /\ PathOk(e.addrs_before, e.addr_before) /\ Tab(later, e.id) # -2 THEN <<"C17.Release", "lease still in the master's table at the next quiescence">>
         ELSE OK)
   ELSE IF e.op = "check_connection" THEN
        (LET conn == Connected(e) /\ PathOk(e.addrs, e.addr) /\ (e.id = 0 \/ Tab(e.table, e.id) = e.addr) IN
@@ -76,7 +76,7 @@ Crashes == IF Len(T.crashes) = 0 THEN OK ELSE <<"C17.NoRaise", "exception or han
 
 N1 == Len(T.mesh)
 N2 == Len(T.wins)
-Judge(k) == IF k <= N1 THEN <<MeshClause(T.mesh[k])>>
+Judge(k) == IF k <= N1 THEN <<MeshClause(T.mesh[k], IF k < N1 THEN T.mesh[k + 1].table_before ELSE T.mesh[k].table)>>
             ELSE IF k <= N1 + N2 THEN <<SendClause(T.wins[k - N1]), RetsListen(T.wins[k - N1])>>
             ELSE <<Crashes>>
 TInit == tid \in 1..Len(Traces) /\ l = 1 /\ verdict = <<>>
